@@ -116,6 +116,7 @@ impl<T: Clamp + Zero + One> Clamp01 for T {}
 pub trait ClampMinus1: Clamp + One + Neg<Output=Self> {}
 impl<T: Clamp + One + Neg<Output=T>> ClampMinus1 for T {}
 
+#[cfg_attr(yoanlcq_vek_verif, macro_export)]
 macro_rules! impl_clamp_float {
     ($($T:ty)+) => {
         $(
@@ -135,6 +136,7 @@ macro_rules! impl_clamp_float {
         )+
     }
 }
+#[cfg_attr(yoanlcq_vek_verif, macro_export)]
 macro_rules! impl_clamp_integer {
     ($($T:ty)+) => {
         $(
@@ -328,6 +330,7 @@ pub trait Lerp<Factor=f32>: Sized
     }
 }
 
+#[cfg_attr(yoanlcq_vek_verif, macro_export)]
 macro_rules! lerp_impl_float {
     ($($T:ty)+) => {
         $(
@@ -571,6 +574,7 @@ pub trait Wrap<Bound=Self>: Sized {
 
 }
 
+#[cfg_attr(yoanlcq_vek_verif, macro_export)]
 macro_rules! wrap_impl_float {
     ($($T:ty)+) => {
         $(
@@ -599,6 +603,7 @@ macro_rules! wrap_impl_float {
         )+
     }
 }
+#[cfg_attr(yoanlcq_vek_verif, macro_export)]
 macro_rules! wrap_impl_uint {
     ($($T:ty)+) => {
         $(
@@ -631,6 +636,7 @@ macro_rules! wrap_impl_uint {
         )+
     }
 }
+#[cfg_attr(yoanlcq_vek_verif, macro_export)]
 macro_rules! wrap_impl_sint {
     ($($T:ty)+) => {
         $(
